@@ -77,6 +77,28 @@ CLAIMS = {
             'Proof: representation switches preserve the abstraction, read-only sequences preserve every object, queries equal their spec on the abstraction (no-tie for displacements), '
             'slice/filter/extend produce exactly the corresponding frames/atoms, slice indices always valid.',
             'Trusted: Coq kernel/vm_compute, harness, numpy exact on dyadic grid. Closed under the global context.', 'DESIGN.md §5 C15'),
+    'C02': ('Coq theorems of exact periodic geometry (window sufficiency of the minimum-image search by Cauchy-Schwarz on the face normals, triangle inequality, '
+            'invariances) + admissible-set model of the site assignment + checked correspondence over lattice classes and orientations with a float32 guard band',
+            'Proof: the search distance is the true minimum image for every lattice passing an integer test; a state is acceptable iff it is an admissible site (or -1 iff none); '
+            'inner subset outer; automatic radius => unique assignment; repaired label remap correct, rank-based remap refuted (D3).',
+            'Trusted: Coq kernel/vm_compute, harness (guard band 2e-5), MDAnalysis KD-tree replaced by the exact search. Closed under the global context.', 'DESIGN.md §5 C02'),
+    'C06': ('Coq theorems on integer series (S1 cumulative-sum recursion - 2 x autocorrelation sum = definition) + checked correspondence (1e-9) against exact rational values',
+            'Proof: the decomposition used by the code equals the time-origin average of squared displacements for every series and lag, lag 0 is 0, last lag = squared final displacement, '
+            'translation invariance and k^2 scaling. The FFT itself is modelled (defined as the sum it computes) and tied numerically.',
+            'Trusted: Coq kernel/vm_compute, harness, numpy FFT/BLAS/sqrt numerics (tolerance regime).', 'DESIGN.md §5 C06'),
+    'C11': ('Coq theorems (partition by key reused from C05, digitize convention on sorted rational edges, code injectivity, state-name soundness via the C03 fill lemmas, '
+            'permutation invariance of the histogram) + checked correspondence on exact distances + interval certificates for the shell normalisation',
+            'Proof: every pair counted in exactly one (state, species, bin); @X only at sites labelled X; X->Y only between leaving X and reaching Y; raw pair counts symmetric.',
+            'Trusted: Coq kernel/vm_compute, harness (bin-edge guard band), Interval for pi. Closed under the global context (theorems).', 'DESIGN.md §5 C11'),
+    'C14': ('Coq real-analysis theorems for every scaling law and partition-sum of amplitudes (faithful model of the np.roll/array_split code) + exact rational tie of the formula-based metrics '
+            '+ metamorphic checks of the scaling laws on the implementation',
+            'Proof: density/k^3, diffusivity k^2 and 1/s, amplitudes k, frequency invariant under signal scale and 1/s under time scale (periodogram abstracted as degree-2 homogeneous), '
+            'amplitudes sum to the final distance, Haven ratio 1 for identical motion.',
+            'Trusted: Coq kernel, stdlib real axioms, harness, scipy periodogram abstraction.', 'DESIGN.md §5 C14'),
+    'C17': ('Coq theorems of exact geometry (component-wise re-imaging = minimum image below half the perpendicular width, isometries preserve the metric) about a model of '
+            'find_equivalent_positions + checked correspondence with space-group operations exported from pymatgen per case',
+            'Proof: points within the radius, count = number of (operation, position) pairs, distance preserved, inverse image, supercell folding; the +-1 re-imaging is refuted (D14, fixed).',
+            'Trusted: Coq kernel/vm_compute, harness, pymatgen symmetry tables (checked per case for metric preservation and inverses). Closed under the global context.', 'DESIGN.md §5 C17'),
 }
 PENDING_REASON = 'not yet claimed in this revision: model/tie under construction (see DESIGN.md §11 build order)'
 
